@@ -84,12 +84,14 @@ def _rels_of(rels, pid, raw=False):
 def deltas(a, b):
     """primitive deltas from snapshot a to snapshot b, in an order that is well-formed when the step was"""
     out = []
+    ren = [(k, b[k][0]) for k in a if k in b and a[k][0] != b[k][0]]
+    if ren:
+        # simultaneous: slide parts are renumbered in one go - and BEFORE a part is added in the same call
+        # (Presentation.slides renames on first access, then add_slide names the new part)
+        out.append(("rename", ren))
     for k, (name, ct, rels, refs) in b.items():
         if k not in a:
             out.append(("addPart", k, name))
-    ren = [(k, b[k][0]) for k in a if k in b and a[k][0] != b[k][0]]
-    if ren:
-        out.append(("rename", ren))   # simultaneous: slide parts are renumbered in one go
     for k, (name, ct, rels, refs) in b.items():
         old_rels = a[k][2] if k in a else {}
         for rid, tgt in rels.items():
@@ -183,7 +185,10 @@ def content(prs):
                 rec.append((str(ch.chart_type), [(list(pl.categories), [(se.name, list(se.values)) for se in pl.series]) for pl in ch.plots]))
             try:
                 ca = sh.click_action
-                rec.append((ca.hyperlink.address, ca.target_slide.slide_id if ca.target_slide is not None else None))
+                ts = ca.target_slide
+                # for a jump to a slide the "address" is the target part's file name, which renumbering may change;
+                # what the reader sees is WHICH slide is the target
+                rec.append((ca.hyperlink.address if ts is None else None, ts.slide_id if ts is not None else None))
             except Exception:  # noqa
                 pass
             shapes.append(rec)
@@ -281,6 +286,12 @@ def start_deck(rng):
         nums = rng.sample(range(1, 12), len(sl))
         for s, i in zip(sl, nums):
             s.part.partname = PackURI("/ppt/slides/slide%d.xml" % i)
+        if rng.random() < 0.4:
+            # a slide whose p:sldId is gone while its relationship (and part) stayed: what the widespread
+            # "delete a slide" recipe leaves behind when drop_rel is forgotten
+            lst = prs.part._element.sldIdLst
+            lst.remove(lst[rng.randrange(len(lst))])
+            kind = "scrambled+orphan-slide"
         b = io.BytesIO(); prs.save(b); b.seek(0)
         prs = Presentation(b)   # slide parts are now out of order and nothing has renamed them yet
     return prs, kind
@@ -365,6 +376,23 @@ def do_op(rng, prs, st):
         return "hyperlink-set"
     if r < 0.84:
         x = rng.random()
+        if len(prs.slides) and x < 0.25:
+            # two shapes of one slide jump to the same slide (ONE relationship), then one of them lets go
+            sl = list(prs.slides)
+            s = rng.choice(sl); tgt = rng.choice(sl)
+            a = s.shapes.add_shape(MSO_SHAPE.RECTANGLE, 0, 0, 9, 9); b = s.shapes.add_shape(MSO_SHAPE.RECTANGLE, 0, 0, 9, 9)
+            a.click_action.target_slide = tgt; b.click_action.target_slide = tgt
+            st["actions"] += [a, b]
+            how = rng.choice(["none", "other-slide", "url", "address-none"])
+            if how == "none":
+                a.click_action.target_slide = None
+            elif how == "other-slide":
+                a.click_action.target_slide = rng.choice(sl)
+            elif how == "url":
+                a.click_action.hyperlink.address = "http://a.example/9"
+            else:
+                a.click_action.hyperlink.address = None
+            return "action-shared-then-" + how
         if st["actions"] and x < 0.5:
             sh = rng.choice(st["actions"])
             y = rng.random()
@@ -372,15 +400,17 @@ def do_op(rng, prs, st):
                 sh.click_action.hyperlink.address = None
                 return "action-clear"
             if y < 0.7:
-                sh.click_action.target_slide = rng.choice(list(prs.slides))
+                sh.click_action.target_slide = list(prs.slides)[rng.choice([0, 0, -1])]
                 return "action-slide-jump"
             sh.click_action.hyperlink.address = "http://a.example/%d" % rng.randint(0, 2)
             return "action-url"
-        s = a_slide(); sh = s.shapes.add_shape(MSO_SHAPE.RECTANGLE, 0, 0, 9, 9)
-        if rng.random() < 0.5:
+        # several shapes of one slide that jump to the same slide share ONE relationship: kept while any of them uses it
+        s = list(prs.slides)[0] if (len(prs.slides) and rng.random() < 0.6) else a_slide()
+        sh = s.shapes.add_shape(MSO_SHAPE.RECTANGLE, 0, 0, 9, 9)
+        if rng.random() < 0.4:
             sh.click_action.hyperlink.address = "http://a.example/%d" % rng.randint(0, 2)
         else:
-            sh.click_action.target_slide = rng.choice(list(prs.slides))
+            sh.click_action.target_slide = list(prs.slides)[rng.choice([0, 0, -1])]
         st["actions"].append(sh)
         return "action-set"
     if r < 0.88:
@@ -429,9 +459,9 @@ def run_history(ctx, rng, thorough=False):
     steps = []
     n = rng.randint(4, 30)
     for i in range(n):
-        save_now = rng.random() < (0.5 if thorough else 0.25) or i == n - 1 or (i == 0 and kind == "scrambled")
+        save_now = rng.random() < (0.5 if thorough else 0.25) or i == n - 1 or (i == 0 and kind.startswith("scrambled"))
         try:
-            desc = "noop-before-first-save" if (i == 0 and kind == "scrambled" and rng.random() < 0.6) else do_op(rng, prs, st)
+            desc = "noop-before-first-save" if (i == 0 and kind.startswith("scrambled") and rng.random() < 0.6) else do_op(rng, prs, st)
         except Exception as e:  # noqa
             ctx.fail("operation-raised", f"operation raised {type(e).__name__}: {str(e)[:200]} after history {hist}", {"hist": hist[:]})
             return None
